@@ -135,7 +135,29 @@ def judge_real(ctx, prefix, text, value, p, unit, tbl, where, use_prefix=True):
     return True
 
 
+_NT = [0]
+
+
+def as_number_type(value):
+    """every 4th value is handed over as the number type a caller may equally well use: a Python int (integral values), numpy.float64,
+    numpy.int64 (integral values)"""
+    _NT[0] += 1
+    k = _NT[0] % 12
+    integral = float(value).is_integer() and abs(value) < 2 ** 53
+    if k == 3 and integral:
+        return int(value)
+    if k == 7:
+        return np.float64(value)
+    if k == 11 and integral:
+        return np.int64(int(value))
+    return value
+
+
 def render_float(value, p, unit, tbl):
+    return _render_float(as_number_type(value), p, unit, tbl)     # an exception for an int / numpy value is reported like any other
+
+
+def _render_float(value, p, unit, tbl):
     from CircuitCalculator.Utils import ScientificFloat
     if tbl is None:
         return call(lambda: str(ScientificFloat(value, unit, p)))
